@@ -103,6 +103,8 @@ def count_inputs(bundle, depth=0):
     ambiguous = [False]
 
     def add(text, start_block, top):
+        # MCNP input is ASCII; MontePy reads every other character as a blank (documented: replace=True)
+        text = "".join(ch if ord(ch) < 128 else " " for ch in text)
         for l in text.split("\n"):
             # `&` followed by blanks or a `$` comment, a line longer than 80 columns, a tab: how the line is cut and
             # continued is the business of C10/C11, not of this light test
